@@ -80,13 +80,13 @@ def expected_for(root, arg):
         return ("missing",)
     if os.path.isfile(p):
         if is_source(os.path.basename(p)):
-            return ("files", [os.path.normpath(arg)])
+            return ("files", [arg])
         return ("reject", os.path.basename(p))
     out = []
     for dp, dns, fns in os.walk(p, followlinks=True):
         for fn in fns:
             if is_source(fn) and os.path.isfile(os.path.join(dp, fn)):
-                out.append(os.path.normpath(os.path.relpath(os.path.join(dp, fn), root)))
+                out.append(os.path.join(dp, fn))
     return ("files", out)
 
 
@@ -94,13 +94,13 @@ def expected_visible(root, arg):
     """like expected_for, but a directory walk skips every name that starts with a dot"""
     p = os.path.join(root, arg)
     if os.path.isfile(p):
-        return [os.path.normpath(arg)] if is_source(os.path.basename(p)) else []
+        return [arg] if is_source(os.path.basename(p)) else []
     out = []
     for dp, dns, fns in os.walk(p, followlinks=True):
         dns[:] = [d for d in dns if not d.startswith(".")]
         for fn in fns:
             if is_source(fn) and not fn.startswith(".") and os.path.isfile(os.path.join(dp, fn)):
-                out.append(os.path.normpath(os.path.relpath(os.path.join(dp, fn), root)))
+                out.append(os.path.join(dp, fn))
     return out
 
 
@@ -125,7 +125,9 @@ def run_case(sh, root, args, opts, r, gitignored=None, label="args"):
             tree.append(os.path.relpath(os.path.join(dp, fn), root))
         for dn in dns:
             if os.path.islink(os.path.join(dp, dn)):
-                links.append([os.path.relpath(os.path.join(dp, dn), root), sorted(os.listdir(os.path.join(dp, dn)))])
+                up = os.path.join(dp, dn, "..")
+                links.append([os.path.relpath(os.path.join(dp, dn), root), sorted(os.listdir(os.path.join(dp, dn))),
+                              sorted(f for f in os.listdir(up) if os.path.isfile(os.path.join(up, f)))])
     case = {"mode": "tree", "argv": opts + args, "tree": sorted(tree), "label": label, "gitignore": gitignored, "dir_links": links}
     if run.timeout or run.trace is None and not run.traceback():
         sh.inconclusive.append("CLI run gave no trace")
@@ -148,10 +150,22 @@ def run_case(sh, root, args, opts, r, gitignored=None, label="args"):
             rejects.append(e[1])
         else:
             exp += e[1]
+    exp_names = None
+
+    def real(x):
+        """the file the operating system reaches through this path (links and `..` resolved as the kernel does),
+        relative to the tree when it lies inside it"""
+        rp = os.path.realpath(os.path.join(root, x))
+        rr = os.path.realpath(root)
+        return os.path.relpath(rp, rr) if rp.startswith(rr + os.sep) else rp
+    pairs = [(real(x), os.path.basename(x)) for x in exp]
     if gitignored is not None:
-        exp = [x for x in exp if x not in gitignored]
-    opened = [os.path.normpath(x[1]) for x in (run.trace or {}).get("io", []) if x[0] == "open" and x[1] and not x[1].startswith("/")]
-    opened = [x for x in opened if not x.endswith(".json")]
+        pairs = [(x, b) for x, b in pairs if x not in gitignored]
+    exp = [x for x, _ in pairs]
+    exp_names = [b for _, b in pairs]
+    opened = [x[1] for x in (run.trace or {}).get("io", []) if x[0] == "open" and x[1] and not x[1].startswith("/")]
+    opened_names = [os.path.basename(x) for x in opened if not x.endswith(".json")]
+    opened = [real(x) for x in opened if not x.endswith(".json")]
     if missing is not None:
         sh.count("c15.missing_path_aborts")
         if run.rc in (0, None):
@@ -177,7 +191,7 @@ def run_case(sh, root, args, opts, r, gitignored=None, label="args"):
         sh.violation("unparsable_output", (), case, detail)
         return
     got_names = sorted(f["name"] for f in files)
-    want_names = sorted(os.path.basename(x) for x in exp)
+    want_names = sorted(exp_names)
     got_open = sorted(opened)
     want_open = sorted(exp)
     if got_open != want_open or got_names != want_names:
@@ -188,10 +202,11 @@ def run_case(sh, root, args, opts, r, gitignored=None, label="args"):
         vis = []
         for a in eff_args:
             vis += expected_visible(root, a)
+        vp = [(real(x), os.path.basename(x)) for x in vis]
         if gitignored is not None:
-            vis = [x for x in vis if x not in gitignored]
-        detail["only_hidden_missing"] = (sorted(vis) == got_open and got_names == sorted(os.path.basename(x) for x in vis))
-        detail["verdict_lines_match_opens"] = got_names == sorted(os.path.basename(x) for x in got_open)
+            vp = [(x, b) for x, b in vp if x not in gitignored]
+        detail["only_hidden_missing"] = (sorted(x for x, _ in vp) == got_open and got_names == sorted(b for _, b in vp))
+        detail["verdict_lines_match_opens"] = got_names == sorted(opened_names)
         sh.violation("selection", ("missing" if miss else "", "extra" if extra else "", "dup" if dup else "", label), case, detail)
     sh.count("c15.each_checked_once_per_mention")
 
@@ -208,10 +223,16 @@ def run_shard(spec):
             if k % 2 == 1:
                 # links: a directory outside the tree linked below it, a source linked under another name
                 # ("found recursively under a named directory" is read path-wise, as the file system resolves paths)
-                ext = tempfile.mkdtemp(prefix="nv_c15x_")
-                exts.append(ext)
+                ext_root = tempfile.mkdtemp(prefix="nv_c15x_")
+                exts.append(ext_root)
+                ext = os.path.join(ext_root, "pkg", "lib")
+                os.makedirs(ext)
                 for nm in r.sample(["v.c", "v.h", "notes.txt", "w x.c", ".dot.c"], r.randint(1, 4)):
                     with open(os.path.join(ext, nm), "w") as f:
+                        f.write(SRC)
+                # what `<link>/..` reaches: the parent of the link's *target*, not the directory the link lives in
+                for nm in r.sample(["up.c", "up.h", "readme", "main.c"], r.randint(1, 3)):
+                    with open(os.path.join(ext_root, "pkg", nm), "w") as f:
                         f.write(SRC)
                 where = r.choice(dirs)
                 ln = os.path.join(where, r.choice(["vendor", "lnk.c", "ext lib"]))
@@ -242,6 +263,14 @@ def run_shard(spec):
                         args.append(args[0])
                     else:
                         args.append(r.choice(["nope.c", "no/such/dir", "ghost"]))
+                links = [d for d in dirs if d and os.path.islink(os.path.join(root, d))]
+                if links and r.random() < 0.5:
+                    # through a linked directory and back up: the kernel resolves `..` from the link's target
+                    ln = r.choice(links)
+                    up = os.path.join(root, ln, "..")
+                    cands = [f for f in os.listdir(up) if os.path.isfile(os.path.join(up, f))] if os.path.isdir(up) else []
+                    args.append(os.path.join(ln, "..", r.choice(cands)) if cands and r.random() < 0.7 else os.path.join(ln, ".."))
+                    sh.tally("cases", "argument_through_link_and_up")
                 args = [a + "/" if os.path.isdir(os.path.join(root, a)) and r.random() < 0.2 and a != "." else a for a in args]
                 args = ["./" + a if a.startswith("-") else a for a in args]     # not an option
                 run_case(sh, root, args, [], r, label="args")
@@ -261,6 +290,11 @@ def run_shard(spec):
                         pats.append("/" + r.choice(dd) + "/")
                 with open(os.path.join(root, ".gitignore"), "w") as f:
                     f.write("\n".join(pats) + "\n")
+                # a source that matches an ignore rule but is tracked is not ignored (git never ignores what it tracks)
+                forced = [f for f in pats if not f.endswith("/")][:1] if k % 4 == 0 else []
+                for f in forced:
+                    subprocess.run(["git", "add", "-f", "--", f.lstrip("/")], cwd=root, stdout=subprocess.DEVNULL, stderr=subprocess.DEVNULL)
+                    sh.tally("cases", "tracked_file_matching_an_ignore_rule")
                 p = subprocess.run(["git", "ls-files", "-z", "-oi", "--exclude-standard"], cwd=root, stdout=subprocess.PIPE,
                                    stderr=subprocess.DEVNULL)
                 ignored = set(os.path.normpath(x) for x in p.stdout.decode("utf-8", "surrogateescape").split("\0") if x)
@@ -289,10 +323,16 @@ def replay(case, sh):
             with open(os.path.join(root, rel), "w") as f:
                 f.write(SRC if rel != ".gitignore" else "")
         ext = None
-        for rel, names in case.get("dir_links") or []:
-            ext = tempfile.mkdtemp(prefix="nv_c15x_")
+        for entry in case.get("dir_links") or []:
+            rel, names = entry[0], entry[1]
+            ext_root = tempfile.mkdtemp(prefix="nv_c15x_")
+            ext = os.path.join(ext_root, "pkg", "lib")
+            os.makedirs(ext)
             for nm in names:
                 with open(os.path.join(ext, nm), "w") as f:
+                    f.write(SRC)
+            for nm in (entry[2] if len(entry) > 2 else []):
+                with open(os.path.join(ext_root, "pkg", nm), "w") as f:
                     f.write(SRC)
             os.makedirs(os.path.join(root, os.path.dirname(rel)), exist_ok=True)
             os.symlink(ext, os.path.join(root, rel))
